@@ -209,7 +209,13 @@ pub struct CheckOutcome {
 
 /// which cargo feature set of the library this binary was built with (set by ./check)
 fn build_name() -> String {
-    if cfg!(feature = "lib-testable") { "lib-testable".into() } else { "default".into() }
+    if cfg!(feature = "lib-all-features") {
+        "lib-all-features".into()
+    } else if cfg!(feature = "lib-testable") {
+        "lib-testable".into()
+    } else {
+        "default".into()
+    }
 }
 
 fn profile_name() -> String {
